@@ -63,6 +63,8 @@ def run(ck):
                  "self._error`; a pre-start abort is raised inside the main try before any "
                  "start(); shutdown() absorbs only CancelledError; run() keeps the first error "
                  "(simulation task first) and raises it after the loop", 'M1', 8)
+    from rules.shared import pending_cancel_absorbed
+    pending_cancel_absorbed(ck, R2)
     R3 = ck.rule('R09.3', "fatal classes always reach the simulator: SBlock.event aborts (cause "
                  "attached) before re-raising, never for EdzedUnknownEvent; the task monitor "
                  "aborts on every Exception exit and treats a service's return as an error; no "
